@@ -68,7 +68,7 @@ func (pConn *PFCPConn) NewPFCPSession(rseid uint64) (PFCPSession, bool) {
 				qers: make([]qer, 0, MaxItems),
 			},
 		}
-		s.metrics = metrics.NewSession(pConn.nodeID.remote)
+		s.metrics = metrics.NewSession(pConn.remoteNodeID())
 
 		// Metrics update
 		pConn.SaveSessions(s.metrics)
